@@ -271,3 +271,52 @@ func HarnessC20Log(st any) {
 	}
 	sym.Assert(rec.msg == wantMsg, "message is the resolver's client IP, the remote IP without resolver, or 'unknown' when resolution fails")
 }
+
+// ---- concurrent requests through one Logger -----------------------------------------------------
+
+func SetupC20Conc() any {
+	st := &c20State{sink: &logSink{}, resolver: 1, kind: hkRoute}
+	st.logged = c20Router(st, true)
+	return st
+}
+
+// HarnessC20Conc: two requests in flight through the same Logger-wrapped route handler: each record
+// describes one request only, and the happens-before monitor sees no unordered conflicting access.
+func HarnessC20Conc(st any) {
+	s := st.(*c20State)
+	sym.Threads(sym.Param("preempt"))
+	s.behave = func(c fox.Context) {
+		if c.Host() == "a.example" {
+			c.Writer().WriteHeader(http.StatusCreated)
+		} else {
+			c.Writer().WriteHeader(http.StatusNotFound)
+		}
+	}
+	s.sink.recs = nil
+	mk := func(host string) *http.Request {
+		r := c20Request(hkRoute)
+		r.Host = host
+		return r
+	}
+	sym.Go(func() { serveCapture(s.logged, mk("a.example")) })
+	sym.Go(func() { serveCapture(s.logged, mk("b.example")) })
+	sym.Join()
+	recs := s.sink.recs
+	sym.Assert(len(recs) == 2, "one record per request")
+	seenA, seenB := 0, 0
+	for _, rec := range recs {
+		h, _ := s.sink.get(rec, "host")
+		st, _ := s.sink.get(rec, "status")
+		p, _ := s.sink.get(rec, "path")
+		switch h {
+		case any("a.example"):
+			seenA++
+			sym.Assert(st == any(201) && rec.level == 0 && p == any("/r"), "the record of the first request carries its own status and level")
+		case any("b.example"):
+			seenB++
+			sym.Assert(st == any(404) && rec.level == 4 && p == any("/r"), "the record of the second request carries its own status and level")
+		}
+	}
+	sym.Assert(seenA == 1 && seenB == 1, "each request is reported once")
+	sym.Cover("concurrent requests through the Logger")
+}
